@@ -18,7 +18,7 @@ def run(ctx):
     guardvocab.G1(ctx, effects={'terminate', 'unpark', 'wake', 'schedule', 'block'})
     guardvocab.G2(ctx, scopes=('rt::thread::', 'rt::park', 'rt::yield_now', 'rt::thread_done', 'rt::mutex::', 'rt::rwlock::', 'rt::mpsc::', 'rt::notify::', 'rt::condvar::', 'rt::object::Ref'))
     guardvocab.G3(ctx, scopes=('rt::thread::', 'rt::park', 'rt::yield_now', 'rt::thread_done', 'rt::mutex::', 'rt::rwlock::', 'rt::mpsc::', 'rt::notify::', 'rt::condvar::', 'rt::object::Ref', 'thread::'))
-    g_state.run_all(ctx, ["S1", "S2", "S3", "S4", "S5", "S5b", "S6", "S7", "S8", "S9", "D1", "D2"])
+    g_state.run_all(ctx, ["S1", "S2", "S3", "S4", "S5", "S5b", "S6", "S7", "S8", "S9", "S10", "D1", "D2"])
     # a notification that wakes nobody, or a yielded thread that is never re-activated, is a false deadlock
     from . import C08, tlsrules
     C08.W2(ctx)
